@@ -346,6 +346,202 @@ def text_oracle(remarshalled, out):
     return None
 
 
+# ------------------------------------------------------------------ whole description at line level; call sites
+
+def parse_lstruct(tok):
+    """lstruct token (coq/Run/SdpstripRun.v) -> None (pion rejects the text) or
+    dict(exact, session=[ids], media=[(heads, attrs)]), attrs as in parse_structure"""
+    if tok == "U":
+        return None
+    parts = tok.split(";")
+    sess = [] if parts[1] == "-" else [int(x) for x in parts[1].split(",")]
+    media = []
+    for m in parts[2:]:
+        heads, attrs = [], []
+        for a in ([] if m == "-" else m.split(",")):
+            if a[0] == "h":
+                heads.append(int(a[1:]))
+            elif a[0] in "ob":
+                attrs.append((int(a[1:]), a[0], None, None))
+            else:
+                i, t, ad = a[1:].split(".")
+                attrs.append((int(i), "c", t, None if ad == "n" else bytes.fromhex(ad)))
+        media.append((heads, attrs))
+    return dict(exact=parts[0] == "1", session=sess, media=media)
+
+
+def lstruct_lines(d):
+    """the lines in order as (id, kind, must go, attribute or None); ids are by text, so a session-level line may
+    share its id with a media-level candidate line: everything below is positional"""
+    out = []
+    for i in d["session"]:
+        out.append((i, "session-level line", False, None))
+    for heads, attrs in d["media"]:
+        for i in heads:
+            out.append((i, "m=/c=/… line of a media section", False, None))
+        for a in attrs:
+            out.append((a[0], "attribute line", must_drop(a), a))
+    return out
+
+
+def ndrop(d):
+    return sum(1 for x in lstruct_lines(d) if x[2])
+
+
+def lines_diff(d, got):
+    """how `got` (list of id strings) differs from the input minus exactly the local host candidate lines"""
+    pos = lstruct_lines(d)
+    want = [str(x[0]) for x in pos if not x[2]]
+    if got == want:
+        return None
+    # a dropped line's id occurring more often than among the lines to keep = it survived
+    for x in pos:
+        if x[2] and got.count(str(x[0])) > want.count(str(x[0])):
+            return "leak", "host candidate line with address %s survives" % show_ip(x[3][3])
+    if "?" in got:
+        return "rest", "the output has a line that the input does not have"
+    k = 0
+    while k < len(got) and k < len(want) and got[k] == want[k]:
+        k += 1
+    kept = [x for x in pos if not x[2]]
+    what = kept[k][1] if k < len(kept) else "line"
+    return ("attr" if what == "attribute line" else "rest"), "%s lost, duplicated or out of place (position %d; got %s, expected %s)" % (
+        what, k, ",".join(got)[:200] or "-", ",".join(want)[:200] or "-")
+
+
+def lines_prop(line, impl, model):
+    a = line.split(" ")
+    if impl.startswith("!panic") or impl == "!died":
+        return "implementation panicked: " + impl[:200]
+    d = parse_lstruct(a[2])
+    if d is None:
+        return None if impl == "unchanged" else "input that does not parse as SDP was not returned unchanged"
+    if not impl.startswith("lines="):
+        return "unexpected driver answer " + impl[:80]
+    got = [] if impl == "lines=-" else impl[6:].split(",")
+    bad = lines_diff(d, got)
+    if bad:
+        return {"leak": "a local host candidate survives the stripping step: ", "attr": "an attribute other than a local host candidate was not preserved: ",
+                "rest": "a part of the description other than media-level attributes was changed: "}[bad[0]] + bad[1]
+    return None
+
+
+def lines_key(line, impl, model):
+    if impl.startswith("!panic"):
+        return "strip-panic"
+    p = lines_prop(line, impl, model) or ""
+    if "survives" in p:
+        return "local-host-candidate-kept"
+    if "was not preserved" in p:
+        return "attribute-lost"
+    if "other than media-level" in p:
+        return "rest-changed"
+    return "strip"
+
+
+SITE = {"psend": ("proxy-answer", "the answer the proxy sends to the broker (sendAnswer)"),
+        "csend": ("client-offer", "the offer the client sends to the broker (Negotiate)"),
+        "csendc": ("client-offer", "the offer the client sends to the broker (NewSnowflakeClient, Negotiate)")}
+
+
+def send_prop(line, impl, model):
+    a = line.split(" ")
+    op = a[1]
+    name, what = SITE[op]
+    keep = a[2] == "1"
+    tok = a[3] if op == "psend" else a[6]
+    if impl.startswith("!panic") or impl == "!died":
+        return "%s: the call site panicked: %s" % (what, impl[:200])
+    if impl.startswith("!") or impl == "nochannel":
+        return None    # the driver could not observe; left to the model comparison
+    d = parse_lstruct(tok)
+    cfg = "" if op == "psend" else " [broker %s, AMP cache %s, front %s]" % tuple(repr(bytes.fromhex(x[1:]).decode()) for x in a[3:6])
+    if keep:
+        if impl != "same":
+            return "%s was altered although local addresses are explicitly kept%s: %s" % (what, cfg, impl[:120])
+        return None
+    if d is None:
+        return None if impl == "same" else "%s: text that does not parse as SDP was not passed on unchanged" % what
+    drop = ndrop(d)
+    if impl == "same":
+        if drop:
+            return "%s is the unstripped description: it contains %d local host candidate line(s) although local addresses are not kept%s" % (what, drop, cfg)
+        return None if d["exact"] else "%s: driver reports byte-identical text where pion's re-marshalling differs" % what
+    if not impl.startswith("lines="):
+        return "unexpected driver answer " + impl[:80]
+    got = [] if impl == "lines=-" else impl[6:].split(",")
+    bad = lines_diff(d, got)
+    if bad:
+        if bad[0] == "leak":
+            return "%s contains a local host candidate although local addresses are not kept%s: %s" % (what, cfg, bad[1])
+        return "%s: something other than local host candidates was changed%s: %s" % (what, cfg, bad[1])
+    return None
+
+
+def send_key(line, impl, model):
+    name = SITE[line.split(" ")[1]][0]
+    if impl.startswith("!panic") or impl == "!died":
+        return name + "-panic"
+    p = send_prop(line, impl, model) or ""
+    if "although local addresses are not kept" in p:
+        return name + "-leaks-local"
+    if "explicitly kept" in p:
+        return name + "-altered-when-kept"
+    return name + "-altered"
+
+
+BROKER_URLS = [  # (class, url)
+    ("dns", "https://snowflake-broker.torproject.net.global.prod.fastly.net/"), ("dns", "https://broker.example:8443/"), ("dns", "http://broker.example/"),
+    ("dns", "http://localhost:8080/"), ("dns", "https://broker.local/"), ("dns", "https://10.in-addr.example/"),
+    ("public-ip", "https://192.0.2.10/"), ("public-ip", "https://203.0.113.7:4443/path/"), ("public-ip", "https://[2001:db8::1]/"), ("public-ip", "http://[2001:db8::1]:8443/"),
+    ("public-ip", "https://172.32.0.1/"), ("public-ip", "https://100.128.0.1:8443/"), ("public-ip", "http://11.0.0.1/"),
+    ("loopback-ip", "http://127.0.0.1:8080/"), ("loopback-ip", "http://127.0.0.1/"), ("loopback-ip", "https://127.0.0.1:8443/"), ("loopback-ip", "https://127.255.255.254/"),
+    ("loopback-ip", "http://[::1]:8080/"), ("loopback-ip", "https://[::1]/"),
+    ("rfc1918-ip", "http://10.0.0.5/"), ("rfc1918-ip", "http://10.0.0.5:8080/"), ("rfc1918-ip", "https://10.255.255.254/"), ("rfc1918-ip", "https://172.16.0.1/"),
+    ("rfc1918-ip", "https://172.31.255.254:443/"), ("rfc1918-ip", "http://192.168.1.1:8080/"), ("rfc1918-ip", "https://192.168.0.10/"),
+    ("cgnat-ip", "http://100.64.0.1/"), ("cgnat-ip", "https://100.127.255.254:8443/"), ("linklocal-ip", "http://169.254.10.10/"), ("linklocal-ip", "https://169.254.0.1:8443/"),
+    ("ula-ip", "https://[fd00::1]/"), ("ula-ip", "http://[fd12:3456::1]:8080/"), ("ula-ip", "https://[fc00::1]:443/"),
+    ("unspecified-ip", "http://0.0.0.0:8080/"), ("unspecified-ip", "http://[::]:8080/"),
+    ("mapped-local-ip", "https://[::ffff:10.0.0.1]/"), ("mapped-local-ip", "http://[::ffff:192.168.1.1]:8443/"), ("mapped-local-ip", "http://[::ffff:127.0.0.1]/"),
+]
+METHODS = [  # (name, AMP cache URL, front domain)
+    ("http", "", ""), ("http+front", "", "front.example"), ("http+front-local", "", "127.0.0.1:8080"), ("http+front-local", "", "10.0.0.1"),
+    ("amp", "https://cdn.ampproject.org/", ""), ("amp+front", "https://cdn.ampproject.org/", "www.google.com"),
+    ("amp-local-cache", "http://127.0.0.1:9000/", ""), ("amp-local-cache", "https://192.168.1.1/", "192.168.1.1"),
+]
+
+SDP_HEAD = "v=0\r\no=- 7 2 IN IP4 127.0.0.1\r\ns=-\r\nt=0 0\r\na=group:BUNDLE 0\r\nm=application 9 UDP/DTLS/SCTP webrtc-datachannel\r\nc=IN IP4 0.0.0.0\r\na=ice-ufrag:aMAZ\r\n"
+SDP_TAIL = "a=ice-pwd:jcHb08Jjgrazp2dzjdrvPPvV\r\na=setup:active\r\na=mid:0\r\na=sctp-port:5000\r\n"
+
+
+def class_sdps():
+    """descriptions whose candidates are ALL / some / none local (and variants with no candidate at all, only
+    non-host candidates, two media sections)"""
+    def c(n, addr, typ="host", extra=""):
+        return "a=candidate:%d 1 udp 2130706431 %s %d typ %s%s\r\n" % (n, addr, 50000 + n, typ, extra)
+    ra = " raddr 0.0.0.0 rport 0"
+    out = [("all-local", c(1, "192.168.1.2")), ("all-local", c(1, "10.0.0.1") + c(2, "fd00::2") + c(3, "127.0.0.1") + c(4, "169.254.1.1") + c(5, "100.64.0.9") + c(6, "::1") + c(7, "0.0.0.0")),
+           ("all-local", c(1, "::ffff:172.16.3.4") + c(2, "172.31.0.1")),
+           ("some-local", c(1, "192.168.1.2") + c(2, "192.0.2.2")), ("some-local", c(1, "203.0.113.9") + c(2, "fd00::2") + c(3, "2001:db8::2")),
+           ("some-local", c(1, "10.0.0.1") + c(2, "198.51.100.1", "srflx", ra)),
+           ("none-local", c(1, "192.0.2.2")), ("none-local", c(1, "192.0.2.2") + c(2, "2001:db8::2") + c(3, "198.51.100.1", "srflx", ra)),
+           ("none-local", c(1, "172.32.0.1") + c(2, "100.128.0.1") + c(3, "fe80::1")),
+           ("no-candidate", ""), ("only-non-host", c(1, "10.0.0.1", "srflx", ra) + c(2, "192.168.0.1", "relay", ra)),
+           ("mdns-only", c(1, "0f5b4a3c-9d1e-4c2a-8f67-1a2b3c4d5e6f.local"))]
+    res = [(k, (SDP_HEAD + body + SDP_TAIL).encode()) for k, body in out]
+    two = (SDP_HEAD + c(1, "192.168.1.2") + SDP_TAIL + "m=audio 9 UDP/TLS/RTP/SAVPF 111\r\nc=IN IP4 0.0.0.0\r\n" + c(2, "10.0.0.1") + "a=mid:1\r\n").encode()
+    res.append(("all-local-two-sections", two))
+    return res
+
+
+def utf8_ok(b):
+    try:
+        b.decode("utf-8")
+        return True
+    except UnicodeDecodeError:
+        return False
+
+
 # ------------------------------------------------------------------ case generation
 
 def ipclass_cases(ctx):
@@ -391,7 +587,6 @@ def run(ctx):
                         "a 'host candidate' is an a=candidate attribute of a media section that pion/ice parses with type host; "
                         "candidate lines pion/ice rejects are kept verbatim (class BadCand in the model)"]
     il, ik = ipclass_cases(ctx)
-    ctx.correspond(exe, il, ik, label="ip-classification", prop=prop, key_of=key_of)
 
     stats = {}
     texts = []
@@ -454,7 +649,205 @@ def run(ctx):
         kinds.append("strip:" + k + (":unparsable" if st == "U" else ""))
     ctx.extra["texts_parsed_by_pion"] = nparsed
     ctx.extra["texts_rejected_by_pion"] = len(texts) - nparsed
-    ctx.correspond(exe, lines, kinds, label="strip", prop=prop, key_of=key_of, crosscheck=30)
+    ll, lk, usable = lines_cases(ctx, exe, texts)
+    # one model run / driver run / in-Coq cross-check for the three ops of the black-box driver
+    bl = il + lines + ll
+    model, _ = ctx.correspond(exe, bl, ik + kinds + lk, label="ipclass+strip+lines", prop=bb_prop, key_of=bb_key, crosscheck=0)
+    pools = [(bl, model)]
+    sites_part(ctx, usable, pools)
+    crosscheck_once(ctx, pools, 80)
+
+
+C08_ARGS = ["-test.run", "^TestVerifC08Driver$", "-verif.c08"]
+
+
+IGNORED_LAST = ("strip", "lines", "psend", "csend", "csendc", "peer", "peerg")
+
+
+def crosscheck_once(ctx, pools, n):
+    """one in-Coq (vm_compute) cross-check of the extracted runner over a sample of all case lines of the run; for
+    ops whose last argument is only read by the Go driver (the text itself) it is replaced by x00 so that long
+    cases qualify too - the model output cannot depend on it (see `run` in coq/Run/SdpstripRun.v)"""
+    pairs = []
+    for lines, model in pools:
+        for l, m in zip(lines, model):
+            a = l.split(" ")
+            if a[1] in IGNORED_LAST:
+                l = " ".join(a[:-1] + ["x00"])
+            if len(l) < 400 and len(m) < 2000 and not m.startswith("!"):
+                pairs.append((l, m))
+    ctx.rng.shuffle(pairs)
+    byop = {}
+    for l, m in pairs:
+        byop.setdefault(l.split(" ")[1], []).append((l, m))
+    sample = []
+    while len(sample) < n and any(byop.values()):
+        for op in sorted(byop):
+            if byop[op] and len(sample) < n:
+                sample.append(byop[op].pop())
+    if sample:
+        bad = vlib.coq_crosscheck(sample)
+        ctx.extra["vm_compute_crosschecked"] = ctx.extra.get("vm_compute_crosschecked", 0) + len(sample)
+        for i in bad:
+            ctx.not_shown("extraction cross-check: vm_compute and extracted runner differ on `%s`" % sample[i][0][:300])
+
+
+def bb_prop(line, impl, model):
+    return (lines_prop if line.split(" ")[1] == "lines" else prop)(line, impl, model)
+
+
+def bb_key(line, impl, model):
+    return (lines_key if line.split(" ")[1] == "lines" else key_of)(line, impl, model)
+
+
+def lines_cases(ctx, exe, texts):
+    """cases of the whole description at line level (op `lines`); also returns the texts usable at the call sites"""
+    ctx.assumptions += ["line level: model = coq/Model/SdpStripLines.v; a line id stands for the exact text of a line of pion's re-marshalling of the input; "
+                        "the driver prints the ids of ALL lines of the real output",
+                        "call sites: proxy sendAnswer is driven with a peer connection whose LocalDescription() is the case's text (field set by reflection) "
+                        "and with peer connections made by pion (host address rewritten with SetNAT1To1IPs); client Negotiate is driven on a channel built by "
+                        "newBrokerChannelFromConfig whose rendezvous object is the real one with a recording http.RoundTripper underneath"]
+    classes = class_sdps()
+    texts = list(texts) + [("class:" + k, t) for k, t in classes]
+    pl = ["%s lparse x%s" % (AREA, t.hex()) for _, t in texts]
+    rc, res, err = vlib.run_impl(exe, pl)
+    if rc != 0 or len(res) != len(pl):
+        ctx.violation("driver-crash", "lparse phase died at input %r: %s" % (texts[len(res)][1][:300] if len(res) < len(texts) else None, err[-400:]),
+                      dict(label="lparse", case=pl[len(res)] if len(res) < len(pl) else None))
+        return [], [], []
+    lines, kinds, usable = [], [], []
+    for (k, t), r in zip(texts, res):
+        if r.startswith("!"):
+            ctx.violation("strip-panic", "pion panicked on %r: %s" % (t[:300], r[:200]), dict(label="lparse", case="%s lparse x%s" % (AREA, t.hex())))
+            continue
+        tok, stable = r.split(" ")
+        if tok != "U" and stable != "1":
+            continue    # pion does not read its own output back to the same lines: covered at text level above
+        lines.append("%s lines %s x%s" % (AREA, tok, t.hex()))
+        kinds.append("lines:" + k + (":unparsable" if tok == "U" else ""))
+        if utf8_ok(t):
+            usable.append((k, tok, t))
+    return lines, kinds, usable
+
+
+def sites_part(ctx, usable, pools):
+    """the two call sites (ops `psend`, `psendreal`, `csend`)"""
+    rng = ctx.rng
+    thorough = ctx.tier == "thorough"
+    # ---- call sites.  Texts that are not UTF-8 are changed by encoding/json on the way (C13 note) and are left out.
+    cls = [(k, tok, t) for k, tok, t in usable if k.startswith("class:")]
+    rest = [(k, tok, t) for k, tok, t in usable if not k.startswith("class:")]
+    rng.shuffle(rest)
+    rest = rest[:(260 if not thorough else 4000)]
+    pexe = vlib.go_test_build("./proxy/lib", name="proxy_lib_c08c13.test")
+    pl2, pk = [], []
+    for k, tok, t in cls + rest:
+        for keep in "01":
+            pl2.append("%s psend %s %s x%s" % (AREA, keep, tok, t.hex()))
+            pk.append("psend:keep=%s:%s" % (keep, k if k.startswith("class:") else ("unparsable" if tok == "U" else "generated")))
+    from checks import c13
+    model, _ = c13.correspond_robust(ctx, pexe, pl2, pk, C08_ARGS, "proxy-sendAnswer", send_prop, send_key)
+    pools.append((pl2, model))
+    real_pc_part(ctx, pexe)
+
+    cexe = vlib.go_test_build("./client/lib", name="client_lib_c08c13.test")
+    cl, ck = [], []
+
+    def amp_ok(url):
+        # going through an AMP cache rules out publisher URLs with an explicit port or an IPv6 literal host (C11's subject)
+        from urllib.parse import urlsplit
+        u = urlsplit(url)
+        return u.port is None and ":" not in (u.hostname or "")
+
+    def add(keep, uk, url, mk, cache, front, k, tok, t, op="csend"):
+        if cache and not amp_ok(url):
+            return
+        cl.append("%s %s %s x%s x%s x%s %s x%s" % (AREA, op, keep, url.encode().hex(), cache.encode().hex(), front.encode().hex(), tok, t.hex()))
+        ck.append("%s:keep=%s:url=%s:%s:%s" % (op, keep, uk, mk, k if k.startswith("class:") else ("unparsable" if tok == "U" else "generated")))
+    # every kind of broker URL x every rendezvous method x keep x {all, some, none} local
+    pick = {}
+    for k, tok, t in cls:
+        pick.setdefault(k, (k, tok, t))
+    trio = [pick[k] for k in ("class:all-local", "class:some-local", "class:none-local") if k in pick]
+    for uk, url in BROKER_URLS:
+        for mk, cache, front in METHODS:
+            for keep in "01":
+                for k, tok, t in trio:
+                    add(keep, uk, url, mk, cache, front, k, tok, t)
+    # the same through the exported constructor NewSnowflakeClient (op csendc)
+    for uk, url in BROKER_URLS:
+        for mk, cache, front in (METHODS[0], METHODS[4]):
+            for keep in "01":
+                for k, tok, t in trio:
+                    add(keep, uk, url, mk, cache, front, k, tok, t, op="csendc")
+    for k, tok, t in cls + rest:
+        for keep in "01":
+            uk, url = rng.choice(BROKER_URLS)
+            mk, cache, front = rng.choice(METHODS if amp_ok(url) else METHODS[:4])
+            add(keep, uk, url, mk, cache, front, k, tok, t)
+    model, _ = c13.correspond_robust(ctx, cexe, cl, ck, C08_ARGS, "client-Negotiate", send_prop, send_key)
+    pools.append((cl, model))
+
+
+def real_pc_part(ctx, pexe):
+    """sendAnswer on peer connections made by pion: the machine's own candidates, and the host address rewritten
+    to a local one (then every IPv4 host candidate is local)"""
+    cases = [(keep, addr) for addr in ("-", "10.0.0.7", "192.168.3.4", "100.64.1.1", "198.51.100.7") for keep in "01"]
+    pl = ["%s psendreal %s %s" % (AREA, keep, addr) for keep, addr in cases]
+    rc, res, err = vlib.run_impl(pexe, pl, args=C08_ARGS)
+    res = res + ["!died"] * (len(pl) - len(res))
+    shapes = {}
+    pending = []
+    for (keep, addr), l, r in zip(cases, pl, res):
+        ctx.count(l + " " + r[:40], kind="psendreal:keep=%s:%s" % (keep, "own-address" if addr == "-" else "host=" + addr))
+        if r.startswith("!") and not r.startswith("!panic"):
+            ctx.not_shown("psendreal: the driver could not make a peer connection: %s" % r[:200])
+            continue
+        tok, _, sent = r.partition(" ")
+        line = "%s psend %s %s x00" % (AREA, keep, tok)
+        if r.startswith("!panic"):
+            line, sent = "%s psend %s U x00" % (AREA, keep), r
+        bad = send_prop(line, sent, None)
+        if bad:
+            ctx.violation(send_key(line, sent, None), "peer connection made by pion (host address %s): %s" % (addr, bad), dict(label="psendreal", case=l, impl=r[:4000]))
+            continue
+        pending.append((l, line, sent))
+        d = parse_lstruct(tok)
+        if d:
+            ncand = sum(1 for _, attrs in d["media"] for a in attrs if a[1] == "c")
+            shapes["%s" % addr] = "%d candidates, %d local" % (ncand, ndrop(d))
+    # SnowflakeProxy{KeepLocalAddresses}.Start(): the answer of the session it runs has the machine's own candidates
+    own_local = None
+    for (keep, addr), r in zip(cases, res):
+        if addr == "-" and not r.startswith("!"):
+            d = parse_lstruct(r.split(" ")[0])
+            own_local = ndrop(d) if d else None
+    sl = ["%s pstart %s" % (AREA, keep) for keep in "01"]
+    rc, sres, err = vlib.run_impl(pexe, sl, args=C08_ARGS)
+    sres = sres + ["!died"] * (len(sl) - len(sres))
+    for l, r in zip(sl, sres):
+        keep = l.split(" ")[2]
+        ctx.count(l + " " + r[:60], kind="pstart:keep=" + keep)
+        if r.startswith("!panic") or r == "!died":
+            ctx.violation("proxy-answer-panic", "SnowflakeProxy.Start panicked before the answer was sent: " + r[:200], dict(label="pstart", case=l, impl=r[:4000]))
+            continue
+        d = parse_lstruct(r) if not r.startswith("!") else None
+        if d is None:
+            ctx.not_shown("pstart: the driver could not observe an answer: %s" % r[:200])
+            continue
+        n = ndrop(d)
+        if keep == "0" and n:
+            ctx.violation("proxy-answer-leaks-local", "SnowflakeProxy{KeepLocalAddresses: false}.Start(): the answer sent to the broker contains %d local host "
+                          "candidate line(s)" % n, dict(label="pstart", case=l, impl=r[:4000]))
+        if keep == "1" and own_local and n == 0:
+            ctx.violation("proxy-answer-altered-when-kept", "SnowflakeProxy{KeepLocalAddresses: true}.Start(): the answer sent to the broker has no local host candidate "
+                          "although this machine has %d" % own_local, dict(label="pstart", case=l, impl=r[:4000]))
+    ctx.extra["pstart_discriminates"] = bool(own_local)
+    if pending:
+        for (l, line, sent), m in zip(pending, vlib.run_model([x[1] for x in pending])):
+            if m != sent:
+                ctx.not_shown("psendreal: model and implementation disagree on `%s`: model=%s impl=%s" % (l, m[:200], sent[:200]))
+    ctx.extra["psendreal_descriptions"] = shapes
 
 
 def replay(ctx, doc):
@@ -465,6 +858,9 @@ def replay(ctx, doc):
         if not case:
             continue
         a = case.split(" ")
+        if a[1] in ("lines", "psend", "csend", "csendc", "psendreal", "pstart", "lparse"):
+            bad += replay_lines(case)
+            continue
         if a[1] == "parse":
             a = [a[0], "strip", "U", a[2]]
         if a[1] == "strip":
@@ -488,3 +884,44 @@ def replay(ctx, doc):
         print("case: %s\n model: %s\n impl:  %s\n property: %s" % (case[:300], m[:300], r[:300], p or "holds"))
         bad += 1 if p else 0
     return 1 if bad else 0
+
+
+def replay_lines(case):
+    a = case.split(" ")
+    op = a[1]
+    if op == "lparse":
+        a = [a[0], "lines", "U", a[2]]
+        op = "lines"
+    if op == "pstart":
+        pexe = vlib.go_test_build("./proxy/lib", name="proxy_lib_c08c13.test")
+        rc, r, err = vlib.run_impl(pexe, [case], args=C08_ARGS)
+        r = r[0] if r else "!died"
+        d = parse_lstruct(r) if not r.startswith("!") else None
+        n = ndrop(d) if d else None
+        bad = r.startswith("!panic") or r == "!died" or (a[2] == "0" and n)
+        print("case: %s\n answer the broker got: %s\n local host candidate lines in it: %s\n property: %s" % (case, r[:600], n, "fails" if bad else "holds (keep=1 needs the comparison with psendreal)"))
+        return 1 if bad else 0
+    if op == "psendreal":
+        pexe = vlib.go_test_build("./proxy/lib", name="proxy_lib_c08c13.test")
+        rc, r, err = vlib.run_impl(pexe, [case], args=C08_ARGS)
+        r = r[0] if r else "!died"
+        tok, _, sent = r.partition(" ")
+        line = "%s psend %s %s x00" % (AREA, a[2], tok)
+        p = send_prop(line, sent, None)
+        print("case: %s\n impl: %s\n property: %s" % (case, r[:600], p or "holds"))
+        return 1 if p else 0
+    if op == "lines":
+        exe, args, pr = vlib.go_build("./zz_verif/sdpstrip"), (), lines_prop
+        text = a[3]
+    elif op == "psend":
+        exe, args, pr = vlib.go_test_build("./proxy/lib", name="proxy_lib_c08c13.test"), C08_ARGS, send_prop
+        text = a[4]
+    else:
+        exe, args, pr = vlib.go_test_build("./client/lib", name="client_lib_c08c13.test"), C08_ARGS, send_prop
+        text = a[7]
+    m = vlib.run_model([case])[0]
+    rc, r, err = vlib.run_impl(exe, [case], args=args)
+    r = r[0] if r else "!died"
+    p = pr(case, r, m)
+    print("input:\n%s\ncase: %s\n model: %s\n impl:  %s\n property: %s" % (bytes.fromhex(text[1:]).decode("utf-8", "replace"), case[:400], m[:300], r[:300], p or "holds"))
+    return 1 if p else 0
